@@ -182,14 +182,20 @@ def DbL.rotateJournal (db : DbL) : DbL :=
   { db with sealed := db.sealed ++ [{ db.active with watermarks := wms }],
             active := { id := db.active.id + 1 } }
 
+/-- has the keyspace flushed everything up to `lsn`?  Its tables hold a seqno at least `lsn`, or
+    (repaired, finding F10) it holds nothing in memory at all — then everything it ever journaled
+    was flushed or cleared, even if the tables' highest seqno does not show it any more -/
+def KsL.flushedUpTo (k : KsL) (lsn : Nat) : Bool :=
+  (match k.persisted with
+   | none => false
+   | some p => lsn ≤ p) || (k.sealedMem.isEmpty && k.mem.isEmpty)
+
 /-- may the oldest sealed journal be deleted? -/
 def DbL.evictable (db : DbL) (j : JournalL) : Bool :=
   j.watermarks.all fun (id, lsn) =>
     match db.find id with
     | none => true                               -- keyspace deleted
-    | some k => match k.persisted with
-      | none => false
-      | some p => lsn ≤ p
+    | some k => k.flushedUpTo lsn
 
 /-- the loop of `JournalManager::maintenance`: drop evictable journals from the old end, stop at
     the first one that is still needed -/
